@@ -149,3 +149,75 @@ func reachesCallee(c *ctx.Ctx, info *types.Info, call *ast.CallExpr, name string
 	})
 	return found
 }
+
+// ruleC04SubstAttrs: substitution rebuilds composite types from their substituted components. Every
+// attribute of the original that is not a component — channel direction, array length, variadicity,
+// the embedded flag of a field, the tilde of a union term, struct tags — has to be carried over from the
+// original, otherwise the instance has a different type than the one go/types computed.
+func ruleC04SubstAttrs(c *ctx.Ctx, r *core.Reporter) {
+	r.Begin("C04.subst-attrs", "F-SIB", "every go/types constructor call in the substitution takes the non-component attributes (direction, length, variadic, embedded, tilde, tags) from the type being substituted", 6)
+	p := c.Pkg("internal/govendor/subst")
+	if p == nil {
+		r.Undecided("package", "internal/govendor/subst", "not loaded")
+		return
+	}
+	table := map[string]struct {
+		arg  int
+		attr string
+	}{
+		"NewChan":          {0, "Dir"},
+		"NewArray":         {1, "Len"},
+		"NewSignatureType": {5, "Variadic"},
+		"NewField":         {4, "Embedded"},
+		"NewTerm":          {0, "Tilde"},
+	}
+	seen := map[string]int{}
+	for _, fd := range c.AllFuncDecls("internal/govendor/subst") {
+		if fd.Body == nil || c.IsTestFile(fd.Pos()) {
+			continue
+		}
+		ast.Inspect(fd.Body, func(n ast.Node) bool {
+			call, ok := n.(*ast.CallExpr)
+			if !ok {
+				return true
+			}
+			pkg, _, name := callee(p.TypesInfo, call)
+			if pkg != "go/types" {
+				return true
+			}
+			if want, ok := table[name]; ok && want.arg < len(call.Args) {
+				seen[name]++
+				good := false
+				if ac, ok := ast.Unparen(call.Args[want.arg]).(*ast.CallExpr); ok && len(ac.Args) == 0 {
+					if sel, ok := ac.Fun.(*ast.SelectorExpr); ok && sel.Sel.Name == want.attr {
+						good = true
+					}
+				}
+				r.Check(good, fmt.Sprintf("attr:%s.%s@%s#%d", name, want.attr, ctx.FuncName(fd), seen[name]), c.Pos(call.Pos()), fmt.Sprintf("types.%s receives the original's %s() (argument: `%s`)", name, want.attr, exprStr(call.Args[want.arg])))
+			}
+			if name == "NewStruct" && len(call.Args) == 2 {
+				seen[name]++
+				// the tags slice is filled from <orig>.Tag(i)
+				tagsVar := exprStr(call.Args[1])
+				filled := false
+				ast.Inspect(fd.Body, func(m ast.Node) bool {
+					if as, ok := m.(*ast.AssignStmt); ok && len(as.Lhs) == 1 && len(as.Rhs) == 1 {
+						if ix, ok := as.Lhs[0].(*ast.IndexExpr); ok && exprStr(ix.X) == tagsVar {
+							if rc, ok := as.Rhs[0].(*ast.CallExpr); ok {
+								if sel, ok := rc.Fun.(*ast.SelectorExpr); ok && sel.Sel.Name == "Tag" {
+									filled = true
+								}
+							}
+						}
+					}
+					return true
+				})
+				r.Check(filled, "attr:NewStruct.Tag@"+ctx.FuncName(fd), c.Pos(call.Pos()), "types.NewStruct receives tags copied from the original's Tag(i)")
+			}
+			return true
+		})
+	}
+	for name := range table {
+		r.Check(seen[name] >= 1, "attr:"+name+":present", "internal/govendor/subst/subst.go", fmt.Sprintf("types.%s is used by the substitution (%d call(s))", name, seen[name]))
+	}
+}
